@@ -1,5 +1,6 @@
 import MpdProofs.Lemmas.Skeleton
 import MpdProofs.Lemmas.StreamRun
+import MpdProofs.Lemmas.NoidleOnly
 /-!
 # C05 — the client's output is always a legal MPD session (idle/noidle discipline)
 
@@ -50,5 +51,14 @@ theorem C05_byte_one_outstanding (s0 s : Loop.St) (D : Bytes) (h0 : Loop.AfterGr
 for exactly one reply and write exactly what they wait for next -/
 theorem C05_step_writes (s s' : Loop.St) (rf : Bool) (hc : s.pc ≠ .connecting) (h : Loop.step s rf = some s') :
     Loop.Effect s s' := Loop.step_effect s s' rf hc h
+
+/-- **`noidle` only while idling** (byte level, every step): a step from any program point other than
+`idling` — the one in which, by `C05_byte_one_outstanding`, the reply to `idle` is the outstanding one —
+writes no `noidle`; a step from `idling` writes at most one (`nn` counts the `noidle` writes of the
+step's contribution `e` to the log) -/
+theorem C05_noidle_only_while_idling (s s' : Loop.St) (rf : Bool) (hc : s.pc ≠ .connecting)
+    (h : Loop.step s rf = some s') :
+    ∃ e, s'.obs = s.obs ++ e ∧ Loop.nn e ≤ (match s.pc with | .idling _ => 1 | _ => 0) :=
+  Loop.step_noidle s s' rf hc h
 
 end Mpd.C05
